@@ -188,3 +188,35 @@ def call_request_site(ctx, F, want=("writers", "guard", "pair")):
                         % show(st)[:200], sample={"state": show(st)[:200]})
         res["ends"] = ends
     return res
+
+
+def pending_call_blocks_sequence(ctx, F):
+    """C05 / C16: a call that cannot complete in this run stops what follows it.  Seq runs its second child only when
+    the subgraph is complete, so every way a call instruction can end WITHOUT a result must mark the subgraph
+    incomplete: own request still pending (`not_ready`), call addressed elsewhere and already requested
+    (`cant_execute_now`), a request just issued, a particle just forwarded; a re-emitted failure does so before
+    returning its error.  A state that restores a result (`executed`) must not."""
+    h = F.fn("prev_result_handler::handle_prev_state")
+    rows = {}
+    for st in lib.enumerate_paths(h, max_paths=60000):
+        ctors = tuple(c.path.split("::")[-1] for c in st.calls if "StateDescriptor::" in c.path)
+        res = lib.path_result(h, st)
+        inc = bool(lib.path_calls(st, "ExecutionCtx::make_subgraph_incomplete"))
+        if res == "Ok" and ctors:
+            rows.setdefault(ctors[-1], set()).add(inc)
+        elif res == "Err" and lib.path_calls(st, "record_call_cid") and not any(lib.is_from_residual(c.path) for c in st.calls[-2:]):
+            rows.setdefault("Err(re-emitted failure)", set()).add(inc)
+    want = {"not_ready": {True}, "cant_execute_now": {True}, "can_execute_now": {False}, "executed": {False}, "Err(re-emitted failure)": {True}}
+    ctx.require(rows == want, "R-TABLE", "incomplete:handle_prev_state", "not_ready / cant_execute_now / re-emitted failure mark the subgraph incomplete; executed / can_execute_now do not",
+                "handle_prev_state marks the subgraph incomplete as %s, expected %s: a call without a result would no longer stop the instructions sequenced after it"
+                % ({k: sorted(v) for k, v in rows.items()}, {k: sorted(v) for k, v in want.items()}), sample={"table": {k: sorted(v) for k, v in rows.items()}})
+    ex = F.fn("resolved_call::ResolvedCall::execute")
+    ins = [c for c in ex.calls if c.path.endswith("HashMap::insert")]
+    mk = ex.calls_to("ExecutionCtx::make_subgraph_incomplete")
+    ok = bool(ins) and bool(mk) and all(ex.must_pass(i.target, [m.bb for m in mk]) for i in ins)
+    ctx.require(ok, "R-PAIR", "incomplete:request-issued", "after issuing a call request every path marks the subgraph incomplete",
+                "ResolvedCall::execute can return after issuing a call request without marking the subgraph incomplete")
+    hr = F.fn("call_result_setter::handle_remote_call")
+    mk = hr.calls_to("ExecutionCtx::make_subgraph_incomplete")
+    ctx.require(len(mk) >= 1 and all(hr.must_pass(0, [m.bb for m in mk]) for _ in (0,)), "R-PAIR", "incomplete:forwarded", "handle_remote_call always marks the subgraph incomplete",
+                "handle_remote_call can return without marking the subgraph incomplete")
